@@ -103,7 +103,8 @@ def all_attrs(item):
 
 def rand_bound(rng, trait_hint=None):
     opts = ["bound()", "bound(T)", "bound(..)", "bound(T: Copy)", "bound(T: Clone + Copy, ..)", "bound(Vec<T>)",
-            "bound(T, U: ::core::fmt::Debug)", "bound(T: 'static, ..)", "bound(Option<U>, ..)"]
+            "bound(T, U: ::core::fmt::Debug)", "bound(T: 'static, ..)", "bound(Option<U>, ..)",
+            "bound(T, U, Vec<T>, Option<U>, Box<T>)", "bound(U, T, [T; 2], ..)", "bound(T: Copy, U: Clone, T: 'static, U: Sized)"]
     return rng.choice(opts)
 
 
@@ -321,6 +322,14 @@ def fuzz_seeds(rng):
     for attr, item in items:
         out.append({"entry": "attr", "attr": attr, "item": item, "origin": "gen"})
         out.append({"entry": "derive", "attr": "", "item": f"#[derive_ex({attr})] {item}", "origin": "gen"})
+    # every derivable trait on every tiny shape, both entry points (run unmodified by the fuzz loop, and mutated)
+    shapes = ["struct X;", "struct X();", "struct X {}", "struct X(u8);", "struct X { a: u8 }", "struct X(u8, u16);", "struct X<T> { a: T, b: u8, c: T }",
+              "enum X {}", "enum X { A }", "enum X { A(u8) }", "enum X { A {}, B() }", "enum X<T> { A, B(T), C { t: T } }", "union X { a: u8 }",
+              "struct X<T: ?Sized>(T);", "struct X<'a, const N: usize>(&'a [u8; N]);"]
+    for t in STRUCT_TRAITS + ["Deref", "DerefMut"]:
+        for sh in shapes:
+            out.append({"entry": "attr", "attr": t, "item": sh, "origin": "gen-shapes"})
+            out.append({"entry": "derive", "attr": "", "item": f"#[derive_ex({t})] {sh}", "origin": "gen-shapes"})
     for _ in range(60):
         it, derived = gen_type_item(rng)
         elems, shared = gen_trait_args(rng, derived)
